@@ -5,7 +5,7 @@
 # exit code, the VIOLATION lines and the first violation message.
 set -u
 ROOT="$(cd "$(dirname "${BASH_SOURCE[0]}")/.." && pwd)"
-WT=/tmp/seed-eval-wt
+WT=${SEED_EVAL_WT:-/tmp/seed-eval-wt}
 if [ ! -d "$WT" ]; then git -C /repo worktree add --detach "$WT" HEAD >/dev/null 2>&1 || exit 2; fi
 ( cd "$WT" && git checkout -q -- . && git checkout -q --detach "$(git -C /repo rev-parse HEAD)" )
 for D in "$@"; do
